@@ -348,7 +348,7 @@ def mutations(text, info):
     M.append(('dataArity', _replace_once(text, '<- A(p0)', '<- A(p0, 0, 1)')))
     M.append(('badFlowKind', _replace_once(text, '  RW ', '  RX ') or _replace_once(text, '  READ ', '  REED ')))
     M.append(('cCodeInRange', _replace_once(text, 'p0 = 0 .. NT-1', 'p0 = 0 .. %{ return NT-1; %}')))
-    M.append(('inlineBroken', _replace_once(text, 'p0 = 0 .. NT-1', 'p0 = 0 .. %{ return NT-1 %}')))
+    # (no mutation inside embedded C code: ptgpp copies it verbatim and cannot be expected to validate it)
     if ftc:
         pn, call = ftc
         M.append(('unknownTask', _replace_once(text, call, call.replace(pn, 'NOSUCH' + pn))))
